@@ -64,7 +64,8 @@ fn add_windows(h: &mut History, rng: &mut Rng, wrap_window: bool) {
 }
 
 struct Side {
-    u: abyssiniandb::filedb::FileDbMapDbU64,
+    /// None while every handle of the map is dropped (the database object keeps the map open)
+    u: Option<abyssiniandb::filedb::FileDbMapDbU64>,
     um: Model,
     u_dirty: bool,
     s: Option<abyssiniandb::filedb::FileDbMapDbString>,
@@ -133,7 +134,7 @@ fn c03_history<K: Kt>(a: &Args, h: &History, ctx: &mut Ctx, rng: &mut Rng) -> Op
     let make_side = |db: &abyssiniandb::filedb::FileDb| -> Side {
         let u = db.db_map_u64_with_params("side_u", Cfg::small(16).params()).unwrap();
         let sm = db.db_map_string_with_params("side_s", Cfg::small(4).params()).unwrap();
-        Side { u, um: Model::new(), u_dirty: false, s: Some(sm), sm: Model::new(), s_dirty: false }
+        Side { u: Some(u), um: Model::new(), u_dirty: false, s: Some(sm), sm: Model::new(), s_dirty: false }
     };
     let mut side: Option<Side> = if with_side && !late_side { Some(make_side(&db)) } else { None };
     let only_created = rng.chance(1, 2);
@@ -150,12 +151,15 @@ fn c03_history<K: Kt>(a: &Args, h: &History, ctx: &mut Ctx, rng: &mut Rng) -> Op
             if i % 7 == 3 {
                 let x = bits.below(50);
                 let v = crate::util::gen_bytes((x % 40) as usize, x as u32, 0);
+                if sd.u.is_none() {
+                    sd.u = Some(db.db_map_u64_with_params("side_u", Cfg::small(16).params()).unwrap());
+                }
                 if bits.chance(3, 4) {
-                    sd.u.put(&x, &v).unwrap();
+                    sd.u.as_mut().unwrap().put(&x, &v).unwrap();
                     sd.um.insert(x.to_le_bytes().to_vec(), v);
                     sd.u_dirty = true;
                 } else {
-                    let _ = sd.u.delete(&x).unwrap();
+                    let _ = sd.u.as_mut().unwrap().delete(&x).unwrap();
                     if sd.um.remove(&x.to_le_bytes().to_vec()).is_some() {
                         sd.u_dirty = true;
                     }
@@ -181,6 +185,15 @@ fn c03_history<K: Kt>(a: &Args, h: &History, ctx: &mut Ctx, rng: &mut Rng) -> Op
         }
         if op.is_sync() {
             let _ = hooks::take_io_events();
+            // before half of the database-level syncs every handle of the updated side map is dropped: the database
+            // object still holds the map, and its updates are as much "preceding updates" as any other
+            if matches!(op, Op::DbSyncAll | Op::DbSyncData) && bits.chance(1, 2) {
+                if let Some(sd) = side.as_mut() {
+                    if sd.u.take().is_some() {
+                        ctx.count("db_sync_with_all_handles_of_a_dirty_map_dropped", sd.u_dirty as u64);
+                    }
+                }
+            }
         }
         if let Err(f) = s.apply(i, op, &h.keys, &mon, ctx, bits.next()) {
             hooks::record_io_events(false);
@@ -397,6 +410,73 @@ pub fn c03_genhist(a: &Args) -> i32 {
     }
 }
 
+/// a map whose `.htx` (or `.val`) file is gone is opened (the crate re-creates the file) and flushed before any
+/// update: whatever the contents now are, a flush that returns Ok must leave a directory that opens
+fn c03_recreated_file(a: &Args, ctx: &mut Ctx, rng: &mut Rng) -> Option<Stop> {
+    use abyssiniandb::{DbXxx, DbXxxBase};
+    let dir = a.scratch.join("c03m");
+    let snap = a.scratch.join("c03msnap");
+    for which in ["htx", "val"] {
+        let _ = std::fs::remove_dir_all(&dir);
+        let made = guarded_io(|| {
+            let db = abyssiniandb::open_file(&dir)?;
+            let mut m = db.db_map_string_with_params("m", Cfg::small(*rng.pick(&[8u64, 64])).params())?;
+            for j in 0..20 {
+                m.put_string(format!("k{j}").as_str(), "some value")?;
+            }
+            Ok(())
+        });
+        if made.is_err() {
+            return Some(Stop::Harness("cannot build the map".into()));
+        }
+        let gone = dir.join(format!("m.{which}"));
+        if rng.chance(1, 2) {
+            let _ = std::fs::remove_file(&gone);
+        } else {
+            let _ = std::fs::write(&gone, b"");
+        }
+        let kind = rng.below(3);
+        let flushed = guarded_io(|| {
+            let db = abyssiniandb::open_file(&dir)?;
+            let mut m = db.db_map_string("m")?;
+            match kind {
+                0 => m.flush()?,
+                1 => m.sync_data()?,
+                _ => db.sync_all()?,
+            }
+            // handles stay alive while the directory is copied
+            copy_dir(&dir, &snap)?;
+            Ok(())
+        });
+        ctx.count("recreated_file_scenarios", 1);
+        if flushed.is_err() {
+            // refusing to open (or to flush) such a map is no loss of durability
+            ctx.count("recreated_file_scenarios.refused", 1);
+            continue;
+        }
+        let opens = guarded_io(|| {
+            let db = abyssiniandb::open_file(&snap)?;
+            let m = db.db_map_string("m")?;
+            let _ = m.len()?;
+            Ok(())
+        });
+        if let Err(e) = opens {
+            return Some(ctx.classify(finding(&["C03"], "snapshot", 0, format!("a map whose .{which} file was missing was opened (the file was re-created) and {} returned Ok before any update; a copy of the directory taken then does not open: {e}", ["flush", "sync_data", "db.sync_all"][kind as usize]))));
+        }
+    }
+    let _ = std::fs::remove_dir_all(&dir);
+    let _ = std::fs::remove_dir_all(&snap);
+    None
+}
+
+fn guarded_io(f: impl FnOnce() -> std::io::Result<()>) -> Result<(), String> {
+    match crate::session::guarded(crate::session::STEP_BUDGET_BASE, f) {
+        Guard::Ok(Ok(())) => Ok(()),
+        Guard::Ok(Err(e)) => Err(e.to_string()),
+        Guard::Hang(m) | Guard::Panic(m) => Err(m),
+    }
+}
+
 pub fn c03(a: &Args) -> Ctx {
     let mut ctx = Ctx::new("C03", &["C03"], &a.replay_dir, &a.shard_name());
     let ed = edges();
@@ -405,6 +485,16 @@ pub fn c03(a: &Args) -> Ctx {
     let n_ops = a.get_u64("ops", 1500) as usize;
     let kill_hist = a.get_u64("kill_histories", 1) as usize;
     let max_sites = a.get_u64("kill_sites", 12) as usize;
+    {
+        let mut r3 = Rng::new(a.shard_seed() ^ 0xC03F);
+        if let Some(stop) = c03_recreated_file(a, &mut ctx, &mut r3) {
+            let v = matches!(stop, Stop::Violation(_));
+            ctx.record_stop(stop, None);
+            if v {
+                return ctx;
+            }
+        }
+    }
     for i in 0..n_hist {
         let kt = pick_kt(&mut rng, 50);
         let p = c03_profile(&mut rng, n_ops);
